@@ -554,10 +554,10 @@ func runKX(c *engine.Ctx) {
 	}
 }
 
-// runThoroughProduct: full product of 3-element subsets of every axis (DESIGN §4 C10, thorough tier).
+// runThoroughProduct: full product of 3-element subsets of every axis (5 uid lengths) (DESIGN §4 C10, thorough tier).
 func runThoroughProduct(c *engine.Ctx) {
 	ms := []*big.Int{big.NewInt(1), new(big.Int).Sub(nOrd, big.NewInt(2)), chain("master0")}
-	uls := []int{0, 61, 128}
+	uls := []int{0, 60, 61, 63, 128}
 	pls := []int{1, 33, 97}
 	rs := []*big.Int{big.NewInt(1), new(big.Int).Sub(nOrd, one), chain("r0")}
 	for mi, k := range ms {
